@@ -371,6 +371,12 @@ def gen(fam: str, k: int, tier: str) -> dict[str, Any]:
             flags = rng.choice([[], ["--strict"], ["--disallow-any-expr"], ["--no-strict-optional"], ["--follow-imports=silent"],
                                 ["--python-version", "3.10"], ["--python-version", "3.13"], ["--python-version", "3.10", "--platform", "win32"]])
             pre.append({"project": p, "kind": kind, "flags": flags})
+        if rng.random() < 0.5:
+            # swarm option: version-specific knowledge. The build under test misspells a stdlib module that
+            # exists only in some Python versions; an earlier build in the process ran for another version.
+            m0 = scn["project"]["mods"]["m0"]
+            m0["imports"].append({"mod": rng.choice(["tomlib", "distutil", "asynchatt", "imghdrr"]), "style": "import", "ignore": False})
+            pre[rng.randrange(len(pre))]["flags"] = ["--python-version", rng.choice(["3.10", "3.13"])]
         scn["pre"] = pre
         return scn
     raise AssertionError(fam)
